@@ -33,7 +33,7 @@ vars == <<l, pc, ix, nsub, acc, prev, tenv, hist, gwseen>>
 
 NoIx == [gen |-> 0, cfg |-> 0, top |-> 0, wea |-> 0, gw |-> 0, inp |-> 0, eva |-> 0, stp |-> 0,
          pre |-> 0, wat |-> 0, crop |-> 0, min |-> 0, mov |-> 0, nit |-> 0, den |-> 0, dend |-> 0, cropPrev |-> 0]
-NoAcc == [wdt |-> LZero, tp |-> LZero, q1n |-> LZero, qdr |-> LZero, fin |-> LZero]
+NoAcc == [wdt |-> LZero, tp |-> LZero, q1n |-> LZero, qdr |-> LZero, fin |-> LZero, clamp |-> LZero]
 NoPrev == [has |-> FALSE, sEnd |-> LZero, zeit |-> 0, growing |-> FALSE, intw |-> 0, akf |-> 0]
 NoEnv == [init |-> FALSE, lo |-> 0, hi |-> 0]
 NoHist == [fert |-> <<>>, irr |-> <<>>, till |-> <<>>, sow |-> <<>>, harv |-> <<>>, crops |-> <<>>, stageDays |-> <<>>]
@@ -106,7 +106,7 @@ TSubWater == /\ IsEvent("sub.water") /\ pc = "subWater"
              /\ ix' = [ix EXCEPT !.wat = l]
              /\ nsub' = nsub + 1
              /\ acc' = [wdt |-> LAdd(acc.wdt, E.wdt), tp |-> LAdd(acc.tp, E.tpw), q1n |-> LAdd(acc.q1n, E.q1n),
-                        qdr |-> LAdd(acc.qdr, E.qdr), fin |-> LAdd(acc.fin, E.fin)]
+                        qdr |-> LAdd(acc.qdr, E.qdr), fin |-> LAdd(acc.fin, E.fin), clamp |-> acc.clamp]
              /\ Keep(<<prev, tenv, hist, gwseen>>)
 
 TSubCrop == /\ IsEvent("sub.crop") /\ pc = "subCrop"
@@ -132,7 +132,8 @@ TSubNitro == /\ IsEvent("sub.nitro") /\ (pc = "subNitro" \/ (pc \in {"nitroMiner
              /\ pc' = (IF E.err # "" THEN "failed" ELSE IF nsub < Trace[ix.stp].steps THEN "subPre" ELSE "denit")
              /\ ix' = [ix EXCEPT !.nit = l]
              /\ hist' = (IF E.finished THEN [hist EXCEPT !.harv = Append(@, <<E.zeit, Trace[ix.crop].akf>>)] ELSE hist)
-             /\ Keep(<<nsub, acc, prev, tenv, gwseen>>)
+             /\ acc' = (IF Has(E, "clamp") /\ E.err = "" THEN [acc EXCEPT !.clamp = LAdd(@, E.clamp)] ELSE acc)
+             /\ Keep(<<nsub, prev, tenv, gwseen>>)
 
 TDayDenit == /\ IsEvent("day.denit") /\ pc = "denit"
              /\ pc' = "dayEnd" /\ ix' = [ix EXCEPT !.den = l]
@@ -144,7 +145,7 @@ TDayEnd == /\ IsEvent("day.end") /\ pc = "dayEnd"
                        growing |-> Trace[ix.crop].growing, intw |-> Trace[ix.crop].intwick, akf |-> Trace[ix.crop].akf]
            /\ Keep(<<nsub, acc, tenv, hist, gwseen>>)
 
-TRunEnd == /\ (IsEvent("run.end") \/ IsEvent("run.panic")) /\ ~Restartable
+TRunEnd == /\ (IsEvent("run.end") \/ IsEvent("run.panic") \/ IsEvent("run.overflow")) /\ ~Restartable
            /\ pc' = (IF E.ev = "run.panic" THEN "panicked" ELSE "ended")
            /\ Keep(<<ix, nsub, acc, prev, tenv, hist, gwseen>>)
 
@@ -195,6 +196,8 @@ TolTheta == 1               \* 10^-9 cm3/cm3 in units of 10^-9 (projection round
 Finite == l > 1 /\ Has(Ev, "finite") => Ev.finite
 \* every projected number fitted its fixed-point family (otherwise the harness, not the code, is at fault: exit 2)
 InRange == l > 1 /\ Has(Ev, "inrange") => Ev.inrange
+\* the run did not end in a run-time panic
+NoPanic == pc # "panicked"
 InRangeN == l > 1 /\ Has(Ev, "inrangeN") => Ev.inrangeN
 
 \* =============================================================================================
@@ -265,6 +268,77 @@ C19_Envelope == AfterSteps => \A i \in 1..Len(Ev.TD) : Ev.TD[i] >= tenv.lo - Tol
 C19_Stable == AfterSteps => \A i \in 1..Len(Ev.r) : Ev.r[i] >= 0 /\ Ev.r[i] <= 500000
 C19_LowerBoundary == AfterSteps => Ev.TD[Len(Ev.TD)] = Ev.tbase
 C19_All == C19_Envelope /\ C19_Stable /\ C19_LowerBoundary
+
+
+\* =============================================================================================
+\* C02  mineral nitrogen mass balance          (units: 10^-9 kg N/ha, two limbs)
+\* =============================================================================================
+AfterInputs  == l > 1 /\ Ev.ev = "day.inputs"
+AfterCrop    == l > 1 /\ Ev.ev = "sub.crop"
+AfterMineral == l > 1 /\ Ev.ev = "nitro.mineral"
+AfterMove    == l > 1 /\ Ev.ev = "nitro.move"
+AfterNitro   == l > 1 /\ Ev.ev = "sub.nitro" /\ Ev.err = ""
+D(a, b, f) == LSub(a[f], b[f])                          \* change of field f from snapshot b to snapshot a
+\* deposition and irrigation N enter the top layer before the day's processes (not judged on measurement days)
+C02_Inputs == (AfterInputs /\ ~Inp.overwrite) => LAbsLe(LSub(D(Inp, Top, "sumC1"), LAdd(Cfg.depos, Inp.irrN)), TolN)
+\* nothing between the inputs and the transport routine changes mineral N (ET, water, crop growth, fertiliser
+\* bookkeeping, tillage mixing, mineralisation bookkeeping, harvest); automatic fertilisation is switched off
+C02_Untouched == /\ AfterCrop => LAbsLe(D(Crop, Inp, "sumC1"), TolN)
+                 /\ AfterMineral => LAbsLe(D(Minr, Crop, "sumC1"), TolN)
+                 /\ (AfterMove /\ Mov.subd = 1) => LAbsLe(D(Mov, Minr, "sumC1"), TolN)
+                 /\ (AfterMove /\ Mov.subd > 1) => LAbsLe(D(Mov, Nit, "sumC1"), TolN)
+\* transport: change = source term - uptake - leaching - drain loss + what the non-negativity clamp added
+TransportResidual == LSub(LAdd(LAdd(LAdd(D(Nit, Mov, "sumC1"), D(Nit, Mov, "AUFNASUM")), D(Nit, Mov, "OUTSUM")), D(Nit, Mov, "DRAINLOSS")), Mov.sumDNw)
+C02_Transport == AfterNitro => LAbsLe(LSub(TransportResidual, Nit.clamp), TolN)
+\* the clamp only adds, and a layer value below the documented threshold flags the run as unstable
+C02_Clamp == AfterNitro => /\ LGeNeg(Nit.clamp, 0)
+                           /\ (Nit.minCk < Cfg.stab => Nit.unstable)
+\* denitrification withdraws what it reports
+C02_Denit == AfterDenit => LAbsLe(LAdd(D(Den, Nit, "sumC1"), D(Den, Nit, "CUMDENIT")), TolN)
+\* the day, with the reported counters (as the property words it)
+C02_Day == (AfterDenit /\ ~Inp.overwrite) =>
+   LAbsLe(LSub(D(Den, Top, "sumC1"),
+               LSum(<<Cfg.depos, Inp.irrN, D(Den, Top, "UMS"), D(Den, Top, "sumMINAOS"), D(Den, Top, "sumMINFOS"), acc.clamp,
+                      LNeg(D(Den, Top, "N2ONIT")), LNeg(D(Den, Top, "AUFNASUM")), LNeg(D(Den, Top, "OUTSUM")),
+                      LNeg(D(Den, Top, "DRAINLOSS")), LNeg(D(Den, Top, "CUMDENIT"))>>)), 4 * TolN + nsub)
+\* a run whose mineral N left every plausible range (the trace is cut there) must have flagged itself unstable
+C02_OverflowFlagged == (l > 1 /\ Ev.ev = "run.overflow") => Ev.unstable
+C02_All == C02_Inputs /\ C02_Untouched /\ C02_Transport /\ C02_Clamp /\ C02_Denit /\ C02_Day
+
+\* =============================================================================================
+\* C07  pools non-negative, organic / fertiliser bookkeeping exact, crediting once per day
+\* =============================================================================================
+HasN == l > 1 /\ Has(Ev, "minPool")
+C07_NonNeg == HasN => Ev.minPool >= 0 /\ Ev.minCounter >= 0
+Pool(e, a, b) == LAdd(e[a], e[b])
+\* mineralisation moves N from the pools to the mineralised-amount counters, nothing else (harvest days add residues)
+C07_MineralExact == (AfterMove /\ Mov.subd = 1) =>
+   IF Minr.harvestday
+   THEN /\ LGeNeg(LSub(Pool(Mov, "sumNAOS", "sumMINAOS"), Pool(Minr, "sumNAOS", "sumMINAOS")), TolN)
+        /\ LGeNeg(LSub(Pool(Mov, "sumNFOS", "sumMINFOS"), Pool(Minr, "sumNFOS", "sumMINFOS")), TolN)
+   ELSE /\ LAbsLe(LSub(Pool(Mov, "sumNAOS", "sumMINAOS"), Pool(Minr, "sumNAOS", "sumMINAOS")), TolN)
+        /\ LAbsLe(LSub(Pool(Mov, "sumNFOS", "sumMINFOS"), Pool(Minr, "sumNFOS", "sumMINFOS")), TolN)
+\* fertilisation adds exactly the table amounts of the event; tillage mixing preserves pools and counters
+FertToday == Minr.ndg = Crop.ndg + 1
+FertIdx == Crop.ndg + 1                                   \* 1-based index into the schedule arrays of run.config
+C07_FertTill == (AfterMineral /\ ~Cfg.autoFert) =>
+   /\ LAbsLe(LSub(LSub(Pool(Minr, "sumNFOS", "sumMINFOS"), Pool(Crop, "sumNFOS", "sumMINFOS")), IF FertToday THEN Cfg.NSAS[FertIdx] ELSE LZero), TolN)
+   /\ LAbsLe(LSub(LSub(Pool(Minr, "sumNAOS", "sumMINAOS"), Pool(Crop, "sumNAOS", "sumMINAOS")), IF FertToday THEN Cfg.NLAS[FertIdx] ELSE LZero), TolN)
+   /\ LAbsLe(LSub(D(Minr, Crop, "DSUMM"), IF FertToday THEN Cfg.NDIR[FertIdx] ELSE LZero), TolN)
+   /\ LAbsLe(LSub(D(Minr, Crop, "NH4SUM"), IF FertToday THEN Cfg.NH4N[FertIdx] ELSE LZero), TolN)
+\* over a day pool + counter only grow (inputs: residues, manure, dead leaves and roots)
+C07_InputsOnly == (AfterDenit /\ ~Inp.overwrite) =>
+   /\ LGeNeg(LSub(Pool(Den, "sumNAOS", "sumMINAOS"), Pool(Top, "sumNAOS", "sumMINAOS")), TolN)
+   /\ LGeNeg(LSub(Pool(Den, "sumNFOS", "sumMINFOS"), Pool(Top, "sumNFOS", "sumMINFOS")), TolN)
+\* dissolved fertiliser never exceeds fertiliser applied
+C07_Dissolved == HasN => LGeNeg(LSub(Ev.DSUMM, Ev.UMS), TolN) /\ LGeNeg(LSub(Ev.NH4SUM, Ev.NH4UMS), TolN)
+\* uptake and fixation are credited to the crop in the first sub-step only
+C07_CreditOnce == AfterNitro =>
+   /\ LAbsLe(LSub(D(Nit, Mov, "PESUM"), LAdd(D(Nit, Mov, "AUFNASUM"), IF Mov.credit THEN Mov.schnorr ELSE LZero)), TolN)
+   /\ (Nit.subd > 1 => LAbsLe(D(Nit, Mov, "AUFNASUM"), 0))
+C07_FixationOnce == (AfterCrop /\ Crop.subd = 1) =>
+   LAbsLe(LSub(D(Crop, Top, "NFIXSUM"), IF Crop.growing THEN Crop.schnorr ELSE LZero), TolN)
+C07_All == C07_NonNeg /\ C07_MineralExact /\ C07_FertTill /\ C07_InputsOnly /\ C07_Dissolved /\ C07_CreditOnce /\ C07_FixationOnce
 
 \* ---------------------------------------------------------------------------------------------
 Alias == [l |-> l, pc |-> pc, nsub |-> nsub,
